@@ -178,7 +178,7 @@ class Recorder:
         RE.subscribe(self.doc_cb)
 
     # ---- instrumented main plan ----
-    def wrap_plan(self, gen, describe=None):
+    def wrap_plan(self, gen, describe=None, log_cmd=False):
         """transparent logging wrapper around the main plan generator: logs what every resume delivered and how the
         plan reacted.  `describe(value)` abstracts a sent value."""
         describe = describe or describe_value
@@ -199,7 +199,9 @@ class Recorder:
                 except BaseException as e:  # noqa
                     rec.ev("gen", inp, val, "raise:" + exc_kind(e))
                     raise
-                rec.ev("gen", inp, val, "yield")
+                # log_cmd: the yielded command is logged too (scenarios in which a preprocessor may drop the message before the
+                # engine sees it: the monitors then know what the plan is waiting for)
+                rec.ev("gen", inp, val, "yield", s4=(getattr(m, "command", "") if log_cmd else ""))
                 to_send, to_throw = None, None
                 try:
                     to_send = yield m
